@@ -458,6 +458,9 @@ def gen_api(seed, tier):
                     a, b = ["trace", r, t, False], ["trace", r, t, True]
                     evs += [a, b] if rng.random() < 0.5 else [b, a]
                     keys.append([r, t])
+        for k in keys:
+            if ["trace", k[0], k[1], True] in evs and rng.random() < 0.4:
+                evs.append(["consume", k[0], k[1]])       # a poll before anything was traced
         if rng.random() < 0.4:
             evs.append(["match", "Q", rng.choice(ranks)])
         if rng.random() < 0.1:
@@ -477,9 +480,11 @@ def gen_api(seed, tier):
                     loop(i + 1)
                 if rng.random() < 0.9:
                     evs.append(["inc", r])
-                if keys and rng.random() < 0.1:
+                if keys and rng.random() < 0.15:
                     k = rng.choice(keys)
                     evs.append(["consume", k[0], k[1]])
+                    if rng.random() < 0.3:
+                        evs.append(["consume", k[0], k[1]])   # polled again at once: nothing pending
             if rng.random() < 0.9:
                 evs.append(["end", r])
 
@@ -577,6 +582,37 @@ def _build_tensor(ft, ids, tree, dflt, shape=None, ks=None, vs=None):
     if shape is not None:
         kw["shape"] = shape
     return ft.Tensor.fromFiber(**kw)
+
+
+class _Chunks:
+    """a consumer of consumable traces that KEEPS every chunk it is handed (by reference): at the end the
+    concatenation of the kept chunks is the trace, a delivered chunk never changes afterwards, and no list
+    object is handed out twice"""
+
+    def __init__(self, M):
+        self.M = M
+        self.kept = {}          # key -> [(chunk object, copy at delivery)]
+        self.polls = 0
+
+    def poll(self, r, t):
+        chunk = self.M.consumeTrace(r, t)
+        self.kept.setdefault(_kstr([r, t]), []).append((chunk, [list(row) for row in chunk]))
+        self.polls += 1
+
+    def lines(self, k):
+        return _mem_lines([row for chunk, _ in self.kept.get(k, []) for row in chunk])
+
+    def problems(self):
+        bad = []
+        for k, chunks in self.kept.items():
+            for i, (chunk, copy) in enumerate(chunks):
+                if [list(row) for row in chunk] != copy:
+                    bad.append(f"{k}: chunk {i} changed after delivery")
+                    break
+            objs = [c for c, _ in chunks]
+            if any(a is b for i, a in enumerate(objs) for b in objs[:i]):
+                bad.append(f"{k}: the same list object delivered twice")
+        return bad
 
 
 class _DestSpy:
@@ -679,7 +715,7 @@ def _prebuildable(levels):
     return out
 
 
-def _exec_nest(ft, levels, ops, z, i, spy=None, pre=None):
+def _exec_nest(ft, levels, ops, z, i, spy=None, pre=None, poll=None):
     lv = levels[i]
     s = lv["src"]
     kind = s["kind"]
@@ -709,7 +745,9 @@ def _exec_nest(ft, levels, ops, z, i, spy=None, pre=None):
                         prod = prod * o.value
                 z2 += prod
         else:
-            _exec_nest(ft, levels, ops2, z2, i + 1, spy, pre)
+            _exec_nest(ft, levels, ops2, z2, i + 1, spy, pre, poll)
+        if poll is not None and i <= 1:
+            poll()              # the consumer polls after every iteration of the two outermost loops
     if watch is not None:
         spy.end(lv["rank"], watch[0], watch[1], first, not lv.get("zU"))
 
@@ -755,6 +793,7 @@ def _run_kernel_once(ft, case, ncu, consumable, clean=True):
             os.remove(f)
     err, mem = None, {}
     dest = (0, [])
+    chunk_problems = []
     late, late_ok = None, True
     try:
         pre = None
@@ -773,14 +812,23 @@ def _run_kernel_once(ft, case, ncu, consumable, clean=True):
                 M.matchRanks(a, b)
         if case.get("prelude"):
             _prelude(ft, levels, ops)
+        chunks = _Chunks(M)
+        poll = None
+        if consumable:
+            def poll():
+                for r, t in case["traced"]:
+                    chunks.poll(r, t)
+            poll()              # a poll while nothing is pending: no traced loop has started yet
         with _DestSpy(ft) as spy:
-            _exec_nest(ft, levels, ops, z, 0, spy, pre)
+            _exec_nest(ft, levels, ops, z, 0, spy, pre, poll)
         dest = (spy.checked, spy.bad[:2])
         if not case.get("early") and levels[0]["src"]["kind"] != "dense":
             late = _build_expr(ft, levels[0], ops, z)     # built inside the bracket, consumed after it
         if consumable:
+            poll()
             for r, t in case["traced"]:
-                mem[_kstr([r, t])] = _mem_lines(M.consumeTrace(r, t))
+                mem[_kstr([r, t])] = chunks.lines(_kstr([r, t]))
+            chunk_problems = chunks.problems()
         M.endCollect()
     except BaseException as e:          # StopIteration is not an Exception subclass issue, but be safe
         if isinstance(e, (KeyboardInterrupt, SystemExit)):
@@ -809,7 +857,7 @@ def _run_kernel_once(ft, case, ncu, consumable, clean=True):
     declared = {f"{prefix}-{r}-{t}.csv" for r, t in case["traced"]}
     stray = sorted(os.path.basename(f) for f in glob.glob(prefix + "-*.csv") if f not in declared)
     # the files are left in place: the next session with the same prefix has to replace them completely
-    return files, mem, err, zsnap, (dest[0], dest[1], late_ok and not stray)
+    return files, mem, err, zsnap, (dest[0], dest[1], late_ok and not stray, chunk_problems)
 
 
 def _run_kernel(ft, case):
@@ -825,7 +873,7 @@ def _run_kernel(ft, case):
         late_ok = late_ok and dest[2]
         if err and not impl["err"]:
             impl["err"] = err
-    _, mem, err, zs, _ = _run_kernel_once(ft, case, 1000, True, clean=False)
+    _, mem, err, zs, dmem = _run_kernel_once(ft, case, 1000, True, clean=False)
     for f in glob.glob(os.path.join(scratch(), "t-*.csv")):
         os.remove(f)
     outs.append(zs)
@@ -836,7 +884,8 @@ def _run_kernel(ft, case):
     # the result of the nest does not depend on the threshold / trace storage either
     case["side"] = {"output_same_for_all_thresholds": all(o == outs[0] for o in outs),
                     "dest_rows_address_element" + (": " + str(dest_bad[0]) if dest_bad else ""): not dest_bad,
-                    "lazy_fiber_after_endCollect_silent_and_no_undeclared_files": late_ok}
+                    "lazy_fiber_after_endCollect_silent_and_no_undeclared_files": late_ok,
+                    "kept_consumable_chunks_stable_and_distinct" + (": " + dmem[3][0] if dmem[3] else ""): not dmem[3]}
     impl["dest_rows_checked"] = dest_checked
     return case
 
@@ -844,12 +893,13 @@ def _run_kernel(ft, case):
 def _run_api(ft, case):
     M = ft.Metrics
     runs = {}
+    problems = []
     for n in case["thresholds"]:
         d = scratch()
         prefix = os.path.join(d, "a")
         for f in glob.glob(prefix + "-*.csv"):
             os.remove(f)
-        consumed = {}
+        chunks = _Chunks(M)
         err = None
         try:
             M.beginCollect(prefix)
@@ -869,9 +919,7 @@ def _run_api(ft, case):
                 elif tag == "end":
                     M.endIter(ev[1])
                 elif tag == "consume":
-                    k = _kstr([ev[1], ev[2]])
-                    consumed.setdefault(k, [])
-                    consumed[k] += _mem_lines(M.consumeTrace(ev[1], ev[2]))
+                    chunks.poll(ev[1], ev[2])
                 elif tag == "endCollect":
                     M.endCollect()
         except BaseException as e:
@@ -888,12 +936,14 @@ def _run_api(ft, case):
             if slot is not None and slot[0] is not None:
                 lines = (lines or []) + _mem_lines(slot[0])
             files[_kstr([r, t])] = lines
-        cons = {_kstr(k): consumed.get(_kstr(k), []) for k in case["keys"]}
+        cons = {_kstr(k): chunks.lines(_kstr(k)) for k in case["keys"]}
+        problems += chunks.problems()
         _force_end(ft)
         for f in glob.glob(prefix + "-*.csv"):
             os.remove(f)
         runs[str(n)] = {"files": files, "consumed": cons, "err": err}
     case["impl"] = {"runs": runs}
+    case["side"] = {"kept_consumable_chunks_stable_and_distinct" + (": " + problems[0] if problems else ""): not problems}
     return case
 
 
